@@ -28,7 +28,9 @@ import (
 // Engine `fstree`: history driver of the real FSTree (O_TMPFILE writer and portable writer) against
 // Model/FSTree.lean.  C10: operation histories with a full dump after every op.  C13: the same ops with
 // failures injected at chosen system calls of the writers (verifhook.Fault).  C12: the op runs in a child
-// process that exits at a chosen system call (verifhook.Point); the parent reopens the tree.
+// process that exits at a chosen system call (verifhook.Point); the parent reopens the tree.  C12 also: op kseq (a call
+// sequence killed at EVERY system call with strace fault injection) and op gsched (concurrent puts on the portable writer
+// scheduled one system call at a time), see eng_fstree_kill.go.
 
 func init() {
 	engines["fstree"] = seqRunner{gen: fstreeGen, exec: fstreeExec}.engine()
@@ -198,6 +200,10 @@ func fsUninstall() {
 	verifhook.SetPoint(nil)
 }
 
+// fsHangLimit: a call that has not returned after this long is reported as hanging (the machine may be heavily loaded:
+// 4 s was observed to expire on a plain Delete under a load average of 60 on 16 cores).
+const fsHangLimit = 20 * time.Second
+
 // fsGuard runs f under recover and with a time limit: "panic" / "blocked" are observations, not crashes of the run.
 func fsGuard(f func() string) string {
 	ch := make(chan string, 1)
@@ -212,7 +218,7 @@ func fsGuard(f func() string) string {
 	select {
 	case r := <-ch:
 		return r
-	case <-time.After(4 * time.Second):
+	case <-time.After(fsHangLimit):
 		return "blocked"
 	}
 }
@@ -294,6 +300,9 @@ func fstreeChild(c *runCtx) error {
 		return err
 	}
 	t := fsOpen(req.Dir, req.Cfg)
+	if o := parseOp(req.Op); o.name == "gsched" {
+		fsGschedChild(t, o, req.CrashAt) // exits
+	}
 	h := &fsHooks{crashAt: req.CrashAt}
 	h.install()
 	res := fsRunWrite(t, parseOp(req.Op))
@@ -376,6 +385,7 @@ func fstreeExec(c *runCtx, ops []string) {
 	t := fsOpen(dir, cfg)
 	defer func() { fsGuard(func() string { t.Close(); return "" }) }()
 	dead := false
+	kserial := 0
 	want := map[int][]byte{}    // content of the acknowledged, not deleted objects
 	content := map[int][]byte{} // content ever offered for an address; nil once two different contents were offered
 	vary := false
@@ -506,7 +516,7 @@ func fstreeExec(c *runCtx, ops []string) {
 				}
 			}
 			fsOracle(c, "write-never-panics", "", !strings.Contains(res, "panic"), "the write panicked: "+res)
-			fsOracle(c, "write-never-hangs", "", !strings.Contains(res, "blocked"), "the write did not return within 4 s: "+res)
+			fsOracle(c, "write-never-hangs", "", !strings.Contains(res, "blocked"), "the write did not return within the time limit: "+res)
 			if strings.Contains(res, "panic") {
 				res, dead = "panic", true
 			} else if strings.Contains(res, "blocked") {
@@ -515,6 +525,112 @@ func fstreeExec(c *runCtx, ops []string) {
 			if n >= 0 && o.name != "pput" && res != "crashed" && !dead {
 				res += fmt.Sprintf(" n=%d", n)
 			}
+		case "kseq":
+			// a fresh tree of its own, a child process killed at every system call in turn (eng_fstree_kill.go);
+			// the op depends on nothing but the configuration: a failing assertion is recorded with these two lines
+			if !fsStraceWorks() {
+				// no process tracing in this environment: the op is left out on both sides and counted, the hook-point
+				// crash ops of this engine still run
+				c.count("kseq:skipped-no-strace")
+				continue
+			}
+			saved := c.curSeq
+			c.curSeq = []string{cfg.line(), line}
+			obs := fsKseq(c, root, &kserial, cfg, o, line)
+			c.curSeq = saved
+			c.nontrivial(line)
+			if obs == "=> bad-op" {
+				c.emit(line, obs)
+				continue
+			}
+			res = strings.TrimPrefix(obs, "=> ")
+		case "gsched":
+			its := fsParseItems(o)
+			sched := o.ints("sched")
+			bad := cfg.Writer != "generic" || len(its) == 0
+			for _, it := range its {
+				bad = bad || len(it.data) == 0
+			}
+			if _, ok := o.kv["sched"]; !ok || bad {
+				c.emit(line, "=> bad-op")
+				continue
+			}
+			for _, it := range its {
+				offer(it)
+			}
+			c.count("gsched")
+			if _, isCrash := o.kv["c"]; isCrash {
+				c.count("crash-op")
+				if crashAt := o.int("c"); crashAt > 0 {
+					fsGuard(func() string { t.Close(); return "" })
+					req, _ := json.Marshal(fsChildReq{Dir: dir, Cfg: cfg, Op: line, CrashAt: crashAt})
+					cmd := exec.Command(os.Args[0], "fstreechild")
+					cmd.Env = append(os.Environ(), "VH_FSTREE_CHILD="+string(req))
+					out, err := cmd.Output()
+					var ee *exec.ExitError
+					if !errors.As(err, &ee) || ee.ExitCode() != 9 {
+						panic(fmt.Sprintf("gsched child: %v: %s", err, out))
+					}
+					for _, ln := range strings.Split(string(out), "\n") {
+						var i int
+						var r string
+						if n, _ := fmt.Sscanf(ln, "ACK %d %s", &i, &r); n == 2 && r == "ok" && i < len(its) {
+							want[its[i].a] = its[i].plain
+						}
+					}
+					c.count("crashed")
+					t = fsOpen(dir, cfg)
+					_ = t.CleanUpTmp()
+				}
+				res = "crashed"
+				break
+			}
+			c.curSeq = append(c.curSeq, line) // the op under execution belongs to the witness of a failing assertion
+			g := fsNewGsched(t, its)
+			var snaps []string
+			blocked := false
+			for si, n := range sched {
+				if !g.step(n) {
+					blocked = true
+					break
+				}
+				for i, it := range its {
+					if g.fin[i] && g.res[i] == "ok" {
+						want[it.a] = it.plain
+					}
+				}
+				// all callers are parked: the copy is what a process kill at this point leaves
+				snapDir := fmt.Sprintf("%s/snap%d-%d", root, gen, si)
+				fsCopyTree(dir, snapDir)
+				ts := fsOpen(snapDir, cfg)
+				_ = ts.CleanUpTmp()
+				d, got := fsDump(c, ts)
+				check(got)
+				_ = ts.Close()
+				os.RemoveAll(snapDir)
+				if len(snaps) == 0 || snaps[len(snaps)-1] != d {
+					snaps = append(snaps, d)
+				}
+				c.count("gsched-stop-point")
+			}
+			if !blocked {
+				blocked = !g.finish()
+			}
+			fsUninstall()
+			if blocked {
+				fsOracle(c, "write-never-hangs", "", false, "a scheduled caller of the portable writer did not come back within the time limit")
+				c.curSeq = c.curSeq[:len(c.curSeq)-1]
+				res, dead = "blocked", true
+				break
+			}
+			for i, it := range its {
+				if g.res[i] == "ok" {
+					want[it.a] = it.plain
+				}
+			}
+			fsOracle(c, "write-never-panics", "", !strings.Contains(strings.Join(g.res, ","), "panic"), "a scheduled put panicked")
+			c.curSeq = c.curSeq[:len(c.curSeq)-1]
+			res = strings.Join(g.res, ",") + " snaps=" + strings.Join(snaps, ";")
 		case "get", "getb", "stream", "head":
 			a := o.int("a")
 			var data []byte
@@ -787,12 +903,20 @@ func fsGenFaults(c *runCtx, run func([]string)) {
 // fsGenCrashes: every stop point of put (combined and single file) / PutBatch / delete / the portable writer's put,
 // one after the other, then random crash ops.
 func fsGenCrashes(c *runCtx, run func([]string)) {
-	for i := 0; i < c.n(8, 600); i++ {
+	for i := 0; i < c.n(12, 720); i++ {
 		g := fsNewGen(c, false)
 		cfg := fsCfg{Writer: "linux", Depth: c.rng.IntN(3), Thr: 300, Cnt: []int{2, 3, 128}[c.rng.IntN(3)], Szl: []int{400, 100000}[c.rng.IntN(2)]}
-		kind := i % 4
+		kind := i % 6
 		if kind == 3 {
 			cfg.Writer = "generic"
+		}
+		if kind == 4 {
+			fsGenKills(c, g, cfg, i/6, run)
+			continue
+		}
+		if kind == 5 {
+			fsGenScheds(c, g, cfg, run)
+			continue
 		}
 		ops := []string{cfg.line()}
 		// something to survive the crashes
@@ -837,4 +961,121 @@ func fsGenCrashes(c *runCtx, run func([]string)) {
 		}
 		run(ops)
 	}
+}
+
+// fsKseqItems: k items; with sameAddr the second item is the first one's address again (its stored form may differ:
+// compressed or not).
+func (g *fsGenState) kseqItems(k int, sameAddr bool) string {
+	perm := g.c.rng.Perm(8)
+	s := fmt.Sprintf("n=%d", k)
+	for i := 0; i < k; i++ {
+		a := 1 + perm[i]
+		if sameAddr && i == 1 {
+			a = 1 + perm[0]
+			g.comp[a] = true
+		}
+		s += " " + g.item(strconv.Itoa(i), a)
+	}
+	return s
+}
+
+// fsGenKills: call sequences killed at every system call: an object is put again (alone, in a batch, after a delete,
+// with another stored form), next to objects acknowledged before; then random sequences with many repeated addresses.
+func fsGenKills(c *runCtx, g *fsGenState, cfg fsCfg, round int, run func([]string)) {
+	if round%2 == 1 { // every second of these histories on the portable writer
+		cfg.Writer = "generic"
+	}
+	for a := 1; a <= 8; a++ { // both writers of the linux implementation: combined file and single file
+		if c.rng.IntN(2) == 0 {
+			g.total[a] = 320 + c.rng.IntN(200)
+		}
+	}
+	templates := [][2]string{
+		{"p0", "p0"}, {"p0,p1", "b01,p2"}, {"b01", "p1,p0"}, {"p0", "d0,p0"}, {"-", "p0,p0,b012"}, {"b012", "b01,d2,p2"},
+	}
+	// every kseq line is a sequence of its own (it runs on a fresh tree): a failing one is its own minimal witness
+	t := templates[(2*round)%len(templates)]
+	run([]string{cfg.line(), fmt.Sprintf("fstree kseq %s setup=%s ops=%s", g.kseqItems(3, false), t[0], t[1])})
+	t = templates[(2*round+1)%len(templates)]
+	run([]string{cfg.line(), fmt.Sprintf("fstree kseq %s setup=%s ops=%s", g.kseqItems(3, false), t[0], t[1])})
+	// the same address with two stored forms
+	run([]string{cfg.line(), fmt.Sprintf("fstree kseq %s setup=p0 ops=p1,p0", g.kseqItems(2, true))})
+	// a random sequence over few addresses
+	k := 2 + c.rng.IntN(2)
+	var seq []string
+	for j := 0; j < 3+c.rng.IntN(2); j++ {
+		switch r := c.rng.IntN(10); {
+		case r < 5:
+			seq = append(seq, fmt.Sprintf("p%d", c.rng.IntN(k)))
+		case r < 8:
+			b := "b"
+			for _, x := range c.rng.Perm(k)[:1+c.rng.IntN(k)] {
+				b += strconv.Itoa(x)
+			}
+			seq = append(seq, b)
+		default:
+			seq = append(seq, fmt.Sprintf("d%d", c.rng.IntN(k)))
+		}
+	}
+	run([]string{cfg.line(), fmt.Sprintf("fstree kseq %s setup=p0 ops=%s", g.kseqItems(k, false), strings.Join(seq, ","))})
+}
+
+// fsGenScheds: two or three concurrent puts on the portable writer, mostly of ONE address, under chosen and random
+// interleavings of their system calls; every prefix of a schedule is a stop point; some ops end in a real process exit.
+func fsGenScheds(c *runCtx, g *fsGenState, cfg fsCfg, run func([]string)) {
+	cfg.Writer = "generic"
+	ops := []string{cfg.line(), "fstree batch " + g.items(2)}
+	two := func(a int) string {
+		g.comp[a] = c.rng.IntN(2) == 0
+		return "n=2 " + g.item("0", a) + " " + g.item("1", a)
+	}
+	// caller 1 opens its temporary file between any two calls of caller 0, then caller 0 finishes first
+	for at := 0; at <= 3; at++ {
+		var sched []int
+		for j := 0; j < 4; j++ {
+			if j == at {
+				sched = append(sched, 1)
+			}
+			sched = append(sched, 0)
+		}
+		a := 1 + c.rng.IntN(8)
+		ops = append(ops, fmt.Sprintf("fstree del a=%d", a), fmt.Sprintf("fstree gsched %s sched=%s", two(a), joinInts(sched)))
+	}
+	for j := 0; j < 4+c.rng.IntN(3); j++ {
+		a := 1 + c.rng.IntN(8)
+		n := 2
+		items := two(a)
+		if c.rng.IntN(3) == 0 { // a third caller, of the same or of another address
+			n = 3
+			b := a
+			if c.rng.IntN(2) == 0 {
+				b = 1 + c.rng.IntN(8)
+			}
+			items = "n=3" + items[3:] + " " + g.item("2", b)
+		}
+		var sched []int
+		left := make([]int, n)
+		for i := range left {
+			left[i] = 4
+		}
+		for len(sched) < 4*n {
+			w := c.rng.IntN(n)
+			if left[w] > 0 {
+				left[w]--
+				sched = append(sched, w)
+			}
+		}
+		line := fmt.Sprintf("fstree gsched %s sched=%s", items, joinInts(sched))
+		if c.rng.IntN(3) == 0 {
+			line += fmt.Sprintf(" c=%d", c.rng.IntN(len(sched)+1))
+		}
+		if c.rng.IntN(2) == 0 {
+			ops = append(ops, fmt.Sprintf("fstree del a=%d", a))
+		}
+		ops = append(ops, line, g.readOp(a))
+	}
+	for a := 1; a <= 8; a += 2 {
+		ops = append(ops, fmt.Sprintf("fstree getb a=%d", a))
+	}
+	run(ops)
 }
